@@ -48,6 +48,8 @@ GEOMS = {
     "TimeInterval": lambda: data.TimeInterval(coordinates=[1.0, 2.5]),
     "Point": lambda: data.Point(coordinates=[1.0, 2000.0]),
     "LineString": lambda: data.LineString(coordinates=[[1.0, 2000.0], [2.0, 3000.0], [2.5, 1000.0]]),
+    # first and last vertex share their time: the time-ordering normalisation must leave it alone on every load
+    "LineStringTie": lambda: data.LineString(coordinates=[[1.0, 2000.0], [2.0, 3000.0], [1.0, 1000.0]]),
     "Polygon": lambda: data.Polygon(coordinates=[[[1.0, 1000.0], [3.0, 1000.0], [3.0, 4000.0], [1.0, 4000.0]],
                                                  [[1.5, 2000.0], [2.5, 2000.0], [2.0, 3000.0]]]),
     "BoundingBox": lambda: data.BoundingBox(coordinates=[1.0, 1000.0, 2.0, 3000.0]),
@@ -118,6 +120,8 @@ AXES_DECL = [
     ("share.second_item_same_clip", _B, 0, 0, 0, CLIPPED),
     ("eval.shared_annotations", _B, 0, 0, 0, EVAL), ("eval.shared_predictions", _B, 0, 0, 0, EVAL),
     ("sea.same_sound_event", _B, 0, 0, 0, ANN), ("seq.parent_also_annotated", _B, 0, 0, 0, ANN),
+    # 1 / 2: the second tag of every site has the first tag's key in another letter case / with a blank for the underscore
+    ("tags.key_case", (0, 1, 2), 0, 0, 0, ALL),
     ("feat.zero_value", (0, 1, 2), 0, 0, 0, ALL),
     ("time.tz_aware", _B, 0, 0, 0, ALL),
     # ---- configuration
@@ -163,7 +167,9 @@ def U(name):
 
 
 def term(label):
-    return data.term_from_key(label)
+    # the simple-label term of a key, built here (not through data.term_from_key) so that the generator's terms are what the
+    # AOEF format documents and never the product of library-side caches or normalisations
+    return data.Term(label=label, name="soundevent:%s" % label, definition="Unknown")
 
 
 class Universe:
@@ -200,7 +206,14 @@ class Universe:
         name = "%s%d" % (site if self.c["share.tags_distinct"] else "all", i)
         site_name = site if self.c["share.tags_distinct"] else "all"
         # within one site: same key, different values; across sites: different keys, same values
-        return self.get("tag:" + name, lambda: data.Tag(term=term("key_" + site_name), value="val %d" % i))
+        key = "key_" + site_name
+        if self.c["tags.key_case"] and i % 2 == 1:
+            key = ("Key_" if self.c["tags.key_case"] == 1 else "key ") + site_name
+        if self.c.get("_term_alias") and i % 2 == 1:
+            # C02 only: a second term with the first term's *name* but its own label (a tag is stored under its term's label)
+            alias = data.Term(label="Label " + site_name, name="soundevent:key_" + site_name, definition="alias")
+            return self.get("tag:" + name, lambda: data.Tag(term=alias, value="val %d" % i))
+        return self.get("tag:" + name, lambda: data.Tag(term=term(key), value="val %d" % i))
 
     def tags(self, site, n):
         return [self.tag(site, i) for i in range(n)]
